@@ -1,7 +1,11 @@
 package sim
 
 import (
+	"encoding/hex"
+	"strconv"
+
 	"cosmossdk.io/math"
+	bridgetypes "github.com/tellor-io/layer/x/bridge/types"
 	"math/big"
 	"time"
 
@@ -587,6 +591,38 @@ func init() {
 				one(u, &oracletypes.MsgSubmitValue{Creator: u.Bech(), QueryData: g.spots[4], Value: Uint256Value(big.NewInt(901))}),
 				one(u, &oracletypes.MsgSubmitValue{Creator: u.Bech(), QueryData: BridgeQuery(true, id), Value: dep}),
 				wait, wait)
+		}
+		return steps
+	}
+
+	// lowSnapshotLimit: governance lowers the per-block limit of user-requested attestations to 1; then several users
+	// withdraw through the bridge and request attestations in ONE block, repeatedly (rejecting the surplus requests is
+	// fine, failing the block is not)
+	fragments["lowSnapshotLimit"] = func(g *Gen) []func() [][]byte {
+		steps := []func() [][]byte{wait, wait, wait, wait, wait, wait}
+		steps = append(steps, g.govSteps(&bridgetypes.MsgUpdateSnapshotLimit{Authority: govAddr(), Limit: 1})...)
+		for i := 0; i < 12; i++ {
+			steps = append(steps, wait)
+		}
+		burst := func() [][]byte {
+			var out [][]byte
+			for i := 0; i < 4; i++ {
+				if s := g.free(g.user); s != nil {
+					out = append(out, g.tx(s, &bridgetypes.MsgWithdrawTokens{Creator: s.Bech(), Recipient: hex.EncodeToString(g.user().Addr.Bytes()), Amount: rawCoin(int64(1_000_000 + i))}))
+				}
+			}
+			qid := QueryID(g.spots[0])
+			if agg, t, err := g.c.App.OracleKeeper.GetCurrentAggregateReport(g.c.CommittedCtx(), qid); err == nil && agg != nil {
+				for i := 0; i < 3; i++ {
+					if s := g.free(g.user); s != nil {
+						out = append(out, g.tx(s, &bridgetypes.MsgRequestAttestations{Creator: s.Bech(), QueryId: hex.EncodeToString(qid), Timestamp: strconv.FormatInt(t.UnixMilli(), 10)}))
+					}
+				}
+			}
+			return out
+		}
+		for i := 0; i < 4; i++ {
+			steps = append(steps, burst, wait, wait)
 		}
 		return steps
 	}
